@@ -123,7 +123,7 @@ def classify(diags, ug, canary=False):
             return None, n
         kind = None
         for k, pat in (('postcondition', 'postcondition not satisfied'), ('precondition', 'precondition not satisfied'),
-                       ('invariant_end', 'invariant not satisfied at end of loop body'), ('invariant_front', 'invariant not satisfied before loop'),
+                       ('invariant_end', 'invariant not satisfied at end of loop body'), ('invariant_front', 'invariant not satisfied before loop'), ('invariant_break', 'loop invariant not satisfied'),
                        ('assertion', 'assertion failed'), ('overflow', 'possible arithmetic underflow/overflow'),
                        ('decreases', 'decreases not satisfied'), ('loop_ensures', 'loop ensures not satisfied'), ('rlimit', 'Resource limit'), ('closure_requires', 'callee.requires(args)'),
                        ('index', 'index'), ('termination', 'termination'), ('div0', 'possible division by zero'), ('bitshift', 'shift')):
@@ -182,7 +182,7 @@ def classify(diags, ug, canary=False):
                         clause = l.clause
                     fn = l.fn or fn
                     site = (l.src, n)
-        if kind in ('invariant_end', 'invariant_front', 'postcondition', 'loop_ensures', 'decreases'):
+        if kind in ('invariant_end', 'invariant_front', 'invariant_break', 'postcondition', 'loop_ensures', 'decreases'):
             for s in prim:
                 l, n = line_of(s)
                 if l is not None and l.kind == 'clause':
@@ -270,7 +270,7 @@ def verify_unit(unit_name, repo=None, use_cache=True, keep=True, canary=True):
             cached = None
     if cached is None:
         rc, out, diags, stderr, dt, cmd = run_verus(path)
-        cached = {'rc': rc, 'out': out, 'diags': diags, 'stderr_tail': stderr[-4000:] if out is None else '', 'dt': dt, 'cmd': cmd}
+        cached = {'rc': rc, 'out': out, 'diags': diags, 'stderr_tail': stderr[-4000:] if (out is None or 'panicked' in stderr) else '', 'dt': dt, 'cmd': cmd}
         # canary run
         if canary and out is not None:
             ug.generate(canary=True)
@@ -319,7 +319,7 @@ def verify_unit(unit_name, repo=None, use_cache=True, keep=True, canary=True):
         res.status = 'failed'
     elif not vr.get('success'):
         res.status = 'undecided'
-        res.reason = 'verus reported failure without a classified diagnostic'
+        res.reason = 'verus reported failure without a classified diagnostic (tool crash?): ' + (cached.get('stderr_tail') or '')[-600:]
     else:
         res.status = 'ok'
     res.canary = cached.get('canary')
